@@ -1577,7 +1577,8 @@ class Connection(object):
 
         # We've incremented self.in_flight above, so we "have permission" to
         # acquire a new request id
-        request_id = self.get_request_id()
+        with self.lock:
+            request_id = self.get_request_id()
 
         self.send_msg(query, request_id, process_result)
 
